@@ -19,6 +19,9 @@ import random
 import numpy as np
 
 
+RPC = [None]
+
+
 def same(a, b, path="$"):
     """exact structural equality; returns the first difference or None"""
     from ceos_alos2.array import Array
@@ -55,6 +58,8 @@ def same(a, b, path="$"):
         if [tuple(r) for r in a.byte_ranges] != [tuple(r) for r in b.byte_ranges] or \
                 any(type(r) is not tuple for r in b.byte_ranges):
             return f"{path}.byte_ranges: tuples not restored"
+        if RPC[0] is not None and b.records_per_chunk != min(RPC[0], a.shape[0]):
+            return f"{path}.records_per_chunk: {b.records_per_chunk!r} != min(read-time rpc {RPC[0]}, lines {a.shape[0]})"
         if (a.fs.path, a.fs.fs.protocol) != (b.fs.path, b.fs.fs.protocol):
             return f"{path}.fs: {(b.fs.path, b.fs.fs.protocol)} != {(a.fs.path, a.fs.fs.protocol)}"
         return None
@@ -166,6 +171,7 @@ def run(ses):
             back = caching.decode(text, rpc)
         except Exception as e:  # noqa: BLE001
             return bad.append((label, f"{type(e).__name__}: {e}"[:160]))
+        RPC[0] = rpc
         d = same(g, back)
         if d:
             bad.append((label, d))
